@@ -159,29 +159,56 @@ def run(repo, rep, tier):
     # ---- normalisation after loading only ADDS the fields create() trimmed; it never overwrites what the policy specifies ----
     nz = repo.func('policy', 'Policy._normalize_hostkey_sizes')
     rep.saw(nz)
-    nstores = 0
-    for n in walk_no_nested(nz):
-        if isinstance(n, ast.Assign) and isinstance(n.targets[0], ast.Subscript):
-            t = n.targets[0]
-            base = unparse(t.value)
-            if base == 'self._hostkey_sizes[host_key_type]' and isinstance(t.slice, ast.Constant):
-                nstores += 1
-                k = t.slice.value
-                guard = "'%s' not in self._hostkey_sizes[host_key_type]" % k
-                conds = [(unparse(c), p) for c, p, kind in path_condition(n) if kind == 'if']
-                rep.check('normalise', 'default for %r is stored only when the loaded policy lacks it' % k, (guard, True) in conds, n,
-                          'normalisation overwrites the %r the policy specifies (store not guarded by `%s`): CA type/size drift is then silently accepted' % (k, guard))
-            elif unparse(t) == 'self._hostkey_sizes[host_key_type]':
-                nstores += 1
-                v = n.value
-                ok = False
-                if isinstance(v, ast.Dict) and None in v.keys:
-                    # {**defaults, **entry}: the entry must come last so that its values win
-                    unpacked = [unparse(x) for kx, x in zip(v.keys, v.values) if kx is None]
-                    ok = bool(unpacked) and unpacked[-1] == 'self._hostkey_sizes[host_key_type]' and all(kx is None for kx in v.keys)
-                rep.check('normalise', 'merged entry keeps the policy\'s own values (defaults first, entry last)', ok, n,
-                          'normalisation rebuilds the entry as %s: defaults win over the CA type/size the policy specifies, so CA drift is silently accepted' % unparse(v)[:90])
-    rep.floor('normalise', 'stores in _normalize_hostkey_sizes', nstores, 1)
+    # semantic: the normaliser is interpreted (sa/listinterp.py) on a size map with one complete certificate entry and one bare
+    # entry: the complete entry must keep its own values, the bare one must gain the three defaults, None stays None
+    import copy as _copy0
+    from sa.listinterp import Interp as _Interp0
+    from sa.abseval import Unknown as _Unknown0, Opaque as _Opaque0
+    sample = {'ssh-ed25519-cert-v01@openssh.com': {'hostkey_size': 256, 'ca_key_type': 'ssh-rsa', 'ca_key_size': 4096, 'raw_hostkey_bytes': b'k'}, 'rsa-sha2-512': {'hostkey_size': 3072}}
+    want = {'ssh-ed25519-cert-v01@openssh.com': dict(sample['ssh-ed25519-cert-v01@openssh.com']), 'rsa-sha2-512': {'hostkey_size': 3072, 'ca_key_type': '', 'ca_key_size': 0, 'raw_hostkey_bytes': b''}}
+    consts = {}
+    pcls = repo.cls('policy', 'Policy')
+    for st in pcls.body:
+        tv = (st.targets[0], st.value) if isinstance(st, ast.Assign) and len(st.targets) == 1 else ((st.target, st.value) if isinstance(st, ast.AnnAssign) and st.value is not None else None)
+        if tv and isinstance(tv[0], ast.Name):
+            try:
+                val = ce.eval_in(tv[1], 'policy', 'Policy')
+            except Exception:
+                continue
+            for pre in ('Policy.', 'self.', 'cls.'):
+                consts[pre + tv[0].id] = val
+    for label, start, expect in (('entries', sample, want), ('no size map', None, None)):
+        env = dict(_copy0.deepcopy(consts))
+        env.update({'self._hostkey_sizes': _copy0.deepcopy(start), 'self': _Opaque0()})
+        try:
+            finals = _Interp0().run(nz.body, env)
+        except _Unknown0 as ex:
+            raise AnalysisError('Policy._normalize_hostkey_sizes cannot be interpreted: %s' % ex)
+        for fe in finals:
+            rep.evals()
+            if fe.get('<forks>'):
+                raise AnalysisError('Policy._normalize_hostkey_sizes depends on a condition the analysis does not model: %s' % fe['<forks>'][:2])
+            got = fe.get('self._hostkey_sizes')
+            if isinstance(got, _Opaque0):
+                raise AnalysisError('Policy._normalize_hostkey_sizes: the resulting size map is not computable by the interpreter')
+            problem = None
+            if expect is None:
+                if got is not None:
+                    problem = 'a policy without host_key_sizes gets one (%r)' % (got,)
+            elif not isinstance(got, dict):
+                problem = 'the size map becomes %r' % (got,)
+            else:
+                for k, ent in expect.items():
+                    for fld, v in ent.items():
+                        gv = got.get(k, {}).get(fld, '<missing>') if isinstance(got.get(k), dict) else '<missing entry>'
+                        if gv != v and problem is None:
+                            own = fld in sample[k]
+                            problem = ('normalisation replaces the %r the policy specifies for %s (%r) by %r: CA type/size drift is then silently accepted' % (fld, k, v, gv)) if own else \
+                                ('normalisation leaves %s without the default %r (%r), evaluate() would raise or skip' % (k, fld, gv))
+                if problem is None and set(got) != set(expect):
+                    problem = 'normalisation changes the set of host-key types: %s' % sorted(got)
+            rep.check('normalise', 'size-map normalisation keeps the policy\'s own values and only adds missing defaults (%s)' % label, problem is None, nz, problem or '', stmt='normalise %s' % label,
+                      sample={'rule': 'normalise', 'case': label})
     for fq, must in (('Policy.__init__', 'self._normalize_hostkey_sizes()'), ('Policy.load_builtin_policy', 'p._normalize_hostkey_sizes()')):
         rep.check('normalise', '%s normalises the size map after loading' % fq, must in unparse(repo.func('policy', fq)), repo.func('policy', fq), '%s no longer normalises the loaded size map' % fq)
     # ---- rule 2: separator safety ---------------------------------------------------------------------------------------------
